@@ -713,6 +713,11 @@ Definition map_res {A B} (f : A -> B) (r : res A) : res B :=
   match r with Ok a => Ok (f a) | Err e => Err e | Panic => Panic end.
 Definition unit_eqb (a b : unit) : bool := true.
 
+(* ---- generators used by the case files (big inputs are described, not spelled out) --------- *)
+Definition upd (l : list Z) (k v : Z) : list Z := take k l ++ v :: drop (k + 1) l.
+(* pat n a b = [a; a+b; a+2b; ...] mod 256, n elements *)
+Definition pat (n a b : Z) : list Z := map (fun i => (a + Z.of_nat i * b) mod 256) (seq 0 (Z.to_nat n)).
+
 (* ---- correspondence cases ------------------------------------------------------------- *)
 (* CParse: arbitrary bytes through every entry point.  tlsok = "no error from outside cfg was
    observed" (see tls_conn).  grp = results of Group(p) for the listed p.  mar = MarshalBinary
